@@ -1948,10 +1948,11 @@ add("logDepth", "Pick", ["C20"], _PKC, "lets", [("sigma", R), ("scale", R)],
     lambda t: ([("sigma_px", assign_rhs(func(t, "LoGPicker.get_params_and_depth"), "sigma_px")),
                 ("depth", assign_rhs(func(t, "LoGPicker.get_params_and_depth"), "depth"))], ["sigma_px", "depth"]),
     subst={"self._sigma": "sigma"})
-add("dogDepth", "Pick", ["C20"], _PKC, "lets", [("sigma_low", R), ("scale", R)],
+add("dogDepth", "Pick", ["C20"], _PKC, "lets", [("sigma_low", R), ("sigma_high", R), ("scale", R)],
     lambda t: ([("sigma1_px", assign_rhs(func(t, "DoGPicker.get_params_and_depth"), "sigma1_px")),
-                ("depth", assign_rhs(func(t, "DoGPicker.get_params_and_depth"), "depth"))], ["sigma1_px", "depth"]),
-    subst={"self._sigma_low": "sigma_low"})
+                ("sigma2_px", assign_rhs(func(t, "DoGPicker.get_params_and_depth"), "sigma2_px")),
+                ("depth", assign_rhs(func(t, "DoGPicker.get_params_and_depth"), "depth"))], ["sigma1_px", "sigma2_px", "depth"]),
+    subst={"self._sigma_low": "sigma_low", "self._sigma_high": "sigma_high"})
 add("pickBlobRadius", "Pick", ["C20"], _PKC, "const", [],
     pattern(lambda t: _has(ast.unparse(func(t, "LoGPicker.pick_in_chunk")), "img_filt = -ndi.gaussian_laplace(image, sigma)",
                            "pos = find_maxima(img_filt, sigma, 0.0)", "return simple_pick(img_filt, pos)")
